@@ -526,9 +526,9 @@ func ruleJSN3(c *Ctx) {
 				return false
 			}
 			bound, _ := constant.Float64Val(constant.ToFloat(k.Value))
-			return bound > 0 && bound <= 9223372036854775808.0 && si == small
+			return bound > 0 && bound <= 9007199254740992.0 && si == small
 		})
-		c.Check(guarded, construct, p.InstrPos(call), "'f' rendering under a magnitude bound <= 2^63", "format 'f' prints an integral constant of any magnitude in plain digits: {\"const\": 1e19} becomes the integer literal 10000000000000000000, which the GRL builder rejects (out of the 64-bit range)")
+		c.Check(guarded, construct, p.InstrPos(call), "'f' rendering under a magnitude bound <= 2^53", "format 'f' prints an integral number of any magnitude in plain digits, an integer literal. From 2^53 on a float64 no longer holds every integer and the shortest digits are not the number that was meant ({\"eq\":[\"A.ID\",1541815603606036480]} becomes A.ID == 1541815603606036500, compared exactly); from 2^63 on the builder rejects the literal. Such numbers have to stay float literals")
 	}
 	descQuoted := false
 	for _, ci := range callsIn(pr) {
